@@ -34,11 +34,11 @@ FILTER_POOL = [None, ["e:E1"], ["e:E2"], ["s:S1"], ["s:S2:Bb"], ["t:fast"], ["e:
                ["s:S1", "t:slow"], ["e:Nope"], ["t:none"], ["s:S1:Ba", "s:S2:Ba"]]
 
 
-def gen_scenario(rng, d, big=False):
+def gen_scenario(rng, d, big=False, many=False):
     suites = {}
     for s in ("S1", "S2"):
         benches = []
-        for b in ("Ba", "Bb", "Bc")[:rng.randint(1, 3)]:
+        for b in (("Ba", "Bb", "Bc", "Bd", "Be", "Bf") if many else ("Ba", "Bb", "Bc")[:rng.randint(1, 3)]):
             if rng.random() < 0.4:
                 benches.append({b: {"tags": rng.choice([["fast"], ["fast", "slow"], ["slow"]])}})
             else:
@@ -207,7 +207,7 @@ def precision_part(chk, exprs):
     for i in range(n):
         d = session.scratch_dir()
         try:
-            sc = gen_scenario(rng, d, big=(i == 1))
+            sc = gen_scenario(rng, d, big=(i == 1), many=(i % 5 == 3))     # every fifth file holds more than ten runs
             serial = {"n": 0}
             ses = record_files(sc, rng, serial, torn=(i % 3 == 2))
             if isinstance(ses.result, str):
